@@ -1340,6 +1340,20 @@ package asm
 //@     assigns nothing
 //@     ensures result1 == nil ==> tkind(result0, old) && (!typeis(old, "*ast.NamedType") ==> result0 != nil)
 //@     ensures result1 == nil && typeis(old, "*ast.NamedType") ==> result0 == gen.new.typeDefs[getTypeName(localIdent(cast(old, "*ast.NamedType").Name()))]
+//@   # alias: a definition whose body is another named type is looked up, nothing is written (known finding of C04)
+//@   behaviour alias:
+//@     requires t != nil && typeis(old, "*ast.NamedType")
+//@     assigns nothing
+//@     ensures result1 == nil ==> result0 == gen.new.typeDefs[getTypeName(localIdent(cast(old, "*ast.NamedType").Name()))]
+//@   # fill: the body of a type definition is written into the scaffold it is given (the very object the uses of the
+//@   # name are bound to); nothing but that object changes
+//@   behaviour fill:
+//@     requires t != nil && !typeis(old, "*ast.NamedType")
+//@     assigns cast(t, "*types.IntType").BitSize, cast(t, "*types.FloatType").Kind, cast(t, "*types.PointerType").ElemType, cast(t, "*types.PointerType").AddrSpace, cast(t, "*types.VectorType").Scalable, cast(t, "*types.VectorType").Len, cast(t, "*types.VectorType").ElemType, cast(t, "*types.ArrayType").Len, cast(t, "*types.ArrayType").ElemType, cast(t, "*types.StructType").Packed, cast(t, "*types.StructType").Fields, cast(t, "*types.StructType").Opaque, cast(t, "*types.FuncType").RetType, cast(t, "*types.FuncType").Params, cast(t, "*types.FuncType").Variadic
+//@     ensures result1 == nil ==> result0 == t && tkind(t, old)
+//@     ensures result1 == nil && typeis(old, "*ast.OpaqueType") ==> cast(t, "*types.StructType").Opaque
+//@     ensures result1 == nil && typeis(old, "*ast.StructType") ==> !cast(t, "*types.StructType").Opaque && (len(cast(old, "*ast.StructType").Fields()) > 0 ==> len(cast(t, "*types.StructType").Fields) == len(cast(old, "*ast.StructType").Fields()))
+//@     ensures result1 == nil && typeis(old, "*ast.PackedStructType") ==> !cast(t, "*types.StructType").Opaque && cast(t, "*types.StructType").Packed && (len(cast(old, "*ast.PackedStructType").Fields()) > 0 ==> len(cast(t, "*types.StructType").Fields) == len(cast(old, "*ast.PackedStructType").Fields()))
 //@ func (*generator).irSigFromHeader
 //@   props C04 C06
 //@   requires gen != nil
@@ -1851,9 +1865,9 @@ package asm
 //@     ensures result1 == nil ==> cast(result0, "*types.IntType").BitSize == irBitSize(old)
 //@     ensures result1 != nil ==> result0 == nil
 //@   behaviour fill:
-//@     requires typeis(t, "*types.IntType") && cast(t, "*types.IntType") != nil
+//@     requires t != nil
 //@     assigns cast(t, "*types.IntType").BitSize
-//@     ensures result1 == nil ==> result0 == t
+//@     ensures result1 == nil ==> result0 == t && typeis(t, "*types.IntType") && cast(t, "*types.IntType") != nil
 //@     ensures result1 == nil ==> cast(t, "*types.IntType").BitSize == irBitSize(old)
 //@     ensures result1 != nil ==> result0 == nil
 //@ func (*generator).irFloatType
@@ -1867,9 +1881,9 @@ package asm
 //@     ensures result1 == nil ==> cast(result0, "*types.FloatType").Kind == enum.FloatKindFromString(old.FloatKind().Text())
 //@     ensures result1 != nil ==> result0 == nil
 //@   behaviour fill:
-//@     requires typeis(t, "*types.FloatType") && cast(t, "*types.FloatType") != nil
+//@     requires t != nil
 //@     assigns cast(t, "*types.FloatType").Kind
-//@     ensures result1 == nil ==> result0 == t
+//@     ensures result1 == nil ==> result0 == t && typeis(t, "*types.FloatType") && cast(t, "*types.FloatType") != nil
 //@     ensures result1 == nil ==> cast(t, "*types.FloatType").Kind == enum.FloatKindFromString(old.FloatKind().Text())
 //@     ensures result1 != nil ==> result0 == nil
 //@ func (*generator).irPointerType
@@ -1884,9 +1898,9 @@ package asm
 //@     ensures result1 == nil ==> cast(result0, "*types.PointerType").AddrSpace == ite(res1(old.AddrSpace()), irAddrSpace(res0(old.AddrSpace())), 0)
 //@     ensures result1 != nil ==> result0 == nil
 //@   behaviour fill:
-//@     requires typeis(t, "*types.PointerType") && cast(t, "*types.PointerType") != nil
+//@     requires t != nil
 //@     assigns cast(t, "*types.PointerType").ElemType, cast(t, "*types.PointerType").AddrSpace
-//@     ensures result1 == nil ==> result0 == t
+//@     ensures result1 == nil ==> result0 == t && typeis(t, "*types.PointerType") && cast(t, "*types.PointerType") != nil
 //@     ensures result1 == nil ==> cast(t, "*types.PointerType").ElemType != nil && teq(cast(t, "*types.PointerType").ElemType, tyOf(old.Elem()))
 //@     ensures result1 == nil ==> cast(t, "*types.PointerType").AddrSpace == ite(res1(old.AddrSpace()), irAddrSpace(res0(old.AddrSpace())), old(cast(t, "*types.PointerType").AddrSpace))
 //@     ensures result1 != nil ==> result0 == nil
@@ -1901,9 +1915,9 @@ package asm
 //@     ensures result1 == nil ==> !cast(result0, "*types.VectorType").Scalable && cast(result0, "*types.VectorType").Len == uintLit(old.Len()) && cast(result0, "*types.VectorType").ElemType != nil && teq(cast(result0, "*types.VectorType").ElemType, tyOf(old.Elem()))
 //@     ensures result1 != nil ==> result0 == nil
 //@   behaviour fill:
-//@     requires typeis(t, "*types.VectorType") && cast(t, "*types.VectorType") != nil
+//@     requires t != nil
 //@     assigns cast(t, "*types.VectorType").Len, cast(t, "*types.VectorType").ElemType
-//@     ensures result1 == nil ==> result0 == t
+//@     ensures result1 == nil ==> result0 == t && typeis(t, "*types.VectorType") && cast(t, "*types.VectorType") != nil
 //@     ensures result1 == nil ==> cast(t, "*types.VectorType").Scalable == old(cast(t, "*types.VectorType").Scalable) && cast(t, "*types.VectorType").Len == uintLit(old.Len()) && cast(t, "*types.VectorType").ElemType != nil && teq(cast(t, "*types.VectorType").ElemType, tyOf(old.Elem()))
 //@     ensures result1 != nil ==> result0 == nil
 //@ func (*generator).irScalableVectorType
@@ -1917,9 +1931,9 @@ package asm
 //@     ensures result1 == nil ==> cast(result0, "*types.VectorType").Scalable && cast(result0, "*types.VectorType").Len == uintLit(old.Len()) && cast(result0, "*types.VectorType").ElemType != nil && teq(cast(result0, "*types.VectorType").ElemType, tyOf(old.Elem()))
 //@     ensures result1 != nil ==> result0 == nil
 //@   behaviour fill:
-//@     requires typeis(t, "*types.VectorType") && cast(t, "*types.VectorType") != nil
+//@     requires t != nil
 //@     assigns cast(t, "*types.VectorType").Scalable, cast(t, "*types.VectorType").Len, cast(t, "*types.VectorType").ElemType
-//@     ensures result1 == nil ==> result0 == t
+//@     ensures result1 == nil ==> result0 == t && typeis(t, "*types.VectorType") && cast(t, "*types.VectorType") != nil
 //@     ensures result1 == nil ==> cast(t, "*types.VectorType").Scalable && cast(t, "*types.VectorType").Len == uintLit(old.Len()) && cast(t, "*types.VectorType").ElemType != nil && teq(cast(t, "*types.VectorType").ElemType, tyOf(old.Elem()))
 //@     ensures result1 != nil ==> result0 == nil
 //@ func (*generator).irArrayType
@@ -1933,9 +1947,9 @@ package asm
 //@     ensures result1 == nil ==> cast(result0, "*types.ArrayType").Len == uintLit(old.Len()) && cast(result0, "*types.ArrayType").ElemType != nil && teq(cast(result0, "*types.ArrayType").ElemType, tyOf(old.Elem()))
 //@     ensures result1 != nil ==> result0 == nil
 //@   behaviour fill:
-//@     requires typeis(t, "*types.ArrayType") && cast(t, "*types.ArrayType") != nil
+//@     requires t != nil
 //@     assigns cast(t, "*types.ArrayType").Len, cast(t, "*types.ArrayType").ElemType
-//@     ensures result1 == nil ==> result0 == t
+//@     ensures result1 == nil ==> result0 == t && typeis(t, "*types.ArrayType") && cast(t, "*types.ArrayType") != nil
 //@     ensures result1 == nil ==> cast(t, "*types.ArrayType").Len == uintLit(old.Len()) && cast(t, "*types.ArrayType").ElemType != nil && teq(cast(t, "*types.ArrayType").ElemType, tyOf(old.Elem()))
 //@     ensures result1 != nil ==> result0 == nil
 //@ func (*generator).irStructType
@@ -1953,9 +1967,9 @@ package asm
 //@     loop 0: invariant len(oldFields) == len(old.Fields()) && forall(k, 0, len(oldFields), oldFields[k] == old.Fields()[k])
 //@     loop 0: invariant forall(k, 0, range_i, typ.Fields[k] != nil && teq(typ.Fields[k], tyOf(oldFields[k])))
 //@   behaviour fill:
-//@     requires typeis(t, "*types.StructType") && cast(t, "*types.StructType") != nil
+//@     requires t != nil
 //@     assigns cast(t, "*types.StructType").Fields, cast(t, "*types.StructType").Opaque
-//@     ensures result1 == nil ==> result0 == t
+//@     ensures result1 == nil ==> result0 == t && typeis(t, "*types.StructType") && cast(t, "*types.StructType") != nil
 //@     ensures result1 == nil ==> cast(t, "*types.StructType").Packed == old(cast(t, "*types.StructType").Packed) && !cast(t, "*types.StructType").Opaque
 //@     ensures result1 == nil ==> len(old.Fields()) > 0 ==> len(cast(t, "*types.StructType").Fields) == len(old.Fields()) && forall(k, 0, len(cast(t, "*types.StructType").Fields), cast(t, "*types.StructType").Fields[k] != nil && teq(cast(t, "*types.StructType").Fields[k], tyOf(old.Fields()[k])))
 //@     ensures result1 == nil ==> len(old.Fields()) == 0 ==> cast(t, "*types.StructType").Fields == old(cast(t, "*types.StructType").Fields)
@@ -1978,9 +1992,9 @@ package asm
 //@     loop 0: invariant len(oldFields) == len(old.Fields()) && forall(k, 0, len(oldFields), oldFields[k] == old.Fields()[k])
 //@     loop 0: invariant forall(k, 0, range_i, typ.Fields[k] != nil && teq(typ.Fields[k], tyOf(oldFields[k])))
 //@   behaviour fill:
-//@     requires typeis(t, "*types.StructType") && cast(t, "*types.StructType") != nil
+//@     requires t != nil
 //@     assigns cast(t, "*types.StructType").Packed, cast(t, "*types.StructType").Fields, cast(t, "*types.StructType").Opaque
-//@     ensures result1 == nil ==> result0 == t
+//@     ensures result1 == nil ==> result0 == t && typeis(t, "*types.StructType") && cast(t, "*types.StructType") != nil
 //@     ensures result1 == nil ==> cast(t, "*types.StructType").Packed && !cast(t, "*types.StructType").Opaque
 //@     ensures result1 == nil ==> len(old.Fields()) > 0 ==> len(cast(t, "*types.StructType").Fields) == len(old.Fields()) && forall(k, 0, len(cast(t, "*types.StructType").Fields), cast(t, "*types.StructType").Fields[k] != nil && teq(cast(t, "*types.StructType").Fields[k], tyOf(old.Fields()[k])))
 //@     ensures result1 == nil ==> len(old.Fields()) == 0 ==> cast(t, "*types.StructType").Fields == old(cast(t, "*types.StructType").Fields)
@@ -2002,9 +2016,9 @@ package asm
 //@     loop 0: invariant 0 <= range_i && range_i <= len(oldParams) && typ != nil && len(typ.Params) == len(oldParams) && fresh(typ.Params) && typ.RetType != nil && teq(typ.RetType, tyOf(old.RetType()))
 //@     loop 0: invariant forall(k, 0, range_i, typ.Params[k] != nil && teq(typ.Params[k], tyOf(oldParams[k].Typ())))
 //@   behaviour fill:
-//@     requires typeis(t, "*types.FuncType") && cast(t, "*types.FuncType") != nil
+//@     requires t != nil
 //@     assigns cast(t, "*types.FuncType").RetType, cast(t, "*types.FuncType").Params, cast(t, "*types.FuncType").Variadic
-//@     ensures result1 == nil ==> result0 == t
+//@     ensures result1 == nil ==> result0 == t && typeis(t, "*types.FuncType") && cast(t, "*types.FuncType") != nil
 //@     ensures result1 == nil ==> cast(t, "*types.FuncType").RetType != nil && teq(cast(t, "*types.FuncType").RetType, tyOf(old.RetType())) && cast(t, "*types.FuncType").Variadic == res1(old.Params().Variadic())
 //@     ensures result1 == nil ==> len(old.Params().Params()) > 0 ==> len(cast(t, "*types.FuncType").Params) == len(old.Params().Params()) && forall(k, 0, len(cast(t, "*types.FuncType").Params), cast(t, "*types.FuncType").Params[k] != nil && teq(cast(t, "*types.FuncType").Params[k], tyOf(old.Params().Params()[k].Typ())))
 //@     ensures result1 == nil ==> len(old.Params().Params()) == 0 ==> cast(t, "*types.FuncType").Params == old(cast(t, "*types.FuncType").Params)
@@ -2051,3 +2065,12 @@ package asm
 //@   assigns gen.new.typeDefs, mapof(gen.new.typeDefs)
 //@   ensures result == nil ==> gen.new.typeDefs != nil && forall(k string, mapdom(gen.old.typeDefs, k) ==> mapdom(gen.new.typeDefs, k) && tscaf(gen.new.typeDefs[k], gen.old.typeDefs[k].Typ(), k), pattern(mapdom(gen.old.typeDefs, k)))
 //@   loop 0: invariant gen.new.typeDefs != nil && fresh(gen.new.typeDefs) && forall(k string, visited(k) ==> mapdom(gen.new.typeDefs, k) && tscaf(gen.new.typeDefs[k], gen.old.typeDefs[k].Typ(), k), pattern(mapdom(gen.old.typeDefs, k)))
+//@ # translateTypeDefs fills the bodies into the scaffolds: it writes body fields of type objects only -- never a type
+//@ # name, never the index of definitions: every name stays bound to the scaffold its uses are (and will be) bound to
+//@ func (*generator).translateTypeDefs
+//@   props C04 C16
+//@   partial
+//@   requires gen != nil && gen.old.typeDefs != nil && gen.new.typeDefs != nil
+//@   requires forall(k string, mapdom(gen.old.typeDefs, k) ==> mapdom(gen.new.typeDefs, k) && gen.new.typeDefs[k] != nil, pattern(mapdom(gen.old.typeDefs, k)))
+//@   assigns heap(types.IntType.BitSize), heap(types.FloatType.Kind), heap(types.PointerType.ElemType), heap(types.PointerType.AddrSpace), heap(types.VectorType.Scalable), heap(types.VectorType.Len), heap(types.VectorType.ElemType), heap(types.ArrayType.Len), heap(types.ArrayType.ElemType), heap(types.StructType.Packed), heap(types.StructType.Fields), heap(types.StructType.Opaque), heap(types.FuncType.RetType), heap(types.FuncType.Params), heap(types.FuncType.Variadic)
+//@   loop 0: invariant true
